@@ -129,7 +129,9 @@ class ConnectionModel:
     add_task call), .cancelled (cancel_key_tasks keys), .events (what the event handler was told), .transport (its
     .attrs['closed'] counts close() calls), .protocol (the object the protocol factory built), .spa"""
 
-    def __init__(self, repo, connect=True):
+    def __init__(self, repo, connect=True, answer=None):
+        """answer(request object) -> reply object | None: what the model protocol's get() gives back for the request its
+        factory builds (default: nobody answers)"""
         from .absint import BoundMethod, ClassRef, Closure, Interp, Native, Obj, PyRaise, Undecided
         from .core import AnalysisError
         S = "GeckoAsyncSpa"
@@ -152,7 +154,12 @@ class ConnectionModel:
                 cm = repo.method(proto.cls.short, "connection_made", required=False)
                 if cm is not None:
                     it.call(cm, proto, [transport])
-                proto.attrs["get"] = Native(lambda a2, k2: None, "get")   # nobody answers: _connect gives up at its first request
+                def _get(a2, k2):
+                    if answer is None:
+                        return None       # nobody answers: _connect gives up at its first request
+                    req = it.apply(a2[0], [], {}) if a2 else None
+                    return answer(req)
+                proto.attrs["get"] = Native(_get, "get")
             self.protocol = proto
             return (transport, proto)
         loop = Obj(None, {"create_future": Native(lambda a, k: Obj(None, {"done": Native(lambda a2, k2: False), "set_result": Native(lambda a2, k2: None)}, name="future")),
